@@ -309,6 +309,11 @@ func (c *conn) sendTo(buf []byte, addr unix.Sockaddr) (n int, err error) {
 		}
 	}()
 
+	if c.remote == nil && !c.opened {
+		// The connected UDP socket of a client that has been closed: its descriptor
+		// number is gone and may belong to somebody else by now.
+		return 0, net.ErrClosed
+	}
 	vhook.Sys("c.sendto", c, c.fd, len(buf), nil)
 	if addr != nil {
 		return len(buf), unix.Sendto(c.fd, buf, 0, addr)
